@@ -212,7 +212,7 @@ def run(ctx):
         scns = grids["x10"] + grids["x17"] + grids["x11"]
     can = dict(grids["x10"][0])
     can.update({"id": "Chrome-133", "ver": 772, "suite": 4865, "group": 29, "cert": "ecdsa", "alpn": [], "ossl": 1, "stateless": False,
-                "no_reneg": False, "sni_cb": False, "remove_sni": False, "x_can": True, "expect": "done", "why": ""})
+                "no_reneg": False, "sni_cb": False, "remove_sni": False, "client_auth": 0, "x_can": True, "expect": "done", "why": ""})
     scns = [dict(s) for s in scns] + [can]
     for i, s in enumerate(scns):
         s["sc"] = i
@@ -234,14 +234,15 @@ def run(ctx):
     lap("tlc_validation")
     results = {e["sc"]: e for e in events if e["ev"] == "Result"}
 
-    # ---- only a reproduced rejection is reported: re-run the rejected scenarios alone (own server process each, low parallelism)
+    # ---- only a reproduced rejection is reported: the rejected scenarios are run again, on fresh server processes and with
+    #      low parallelism, and validated again; a rejection that does not come back is exit 2, not a verdict
     first = {}
     for r in rej:
         first.setdefault(r[0], set()).add((r[1], r[2]))
     again = [dict(byid[sc]) for sc in sorted(first)]
     confirmed = {}
     if again:
-        if len(again) > 1500:
+        if len(again) > max(400, len(scns) // 4):
             raise vlib.Machinery("%d of %d scenarios rejected: something systematic is wrong, e.g. %r" % (len(again), len(scns), rej[:5]))
         ev2 = execute(again, 4, "ossl_again")
         rej2, _ = validate(ctx, ev2, 6, tag="again", count=False)
@@ -258,7 +259,6 @@ def run(ctx):
     lap("reproduction")
     rep = Reporter(ctx)
     seen = {}
-    extsrv = {}
     for sc in sorted(confirmed):
         s, r = byid[sc], results.get(sc)
         for kind, detail in confirmed[sc]:
@@ -299,7 +299,6 @@ def run(ctx):
                 else:
                     rep.report("C18", "share:%s:%s" % (d, idn), "key shares of %s: %s" % (s["id"], d), rp)
             elif kind == "extsrv":
-                extsrv.setdefault((d, label[s["ossl"]]), []).append(xbrief(s))
                 rep.report("X10", "extsrv:%s:%s" % (d, label[s["ossl"]].replace(" ", "-")),
                            "%s sent a message the specification says a client must refuse (%s): server or specification at fault" % (label[s["ossl"]], d), rp)
             else:
